@@ -118,6 +118,11 @@ def cases(shard, nshards, seed, tier):
         if mine():
             yield {"family": "T1-rigid-large-assembly", "file": "tests/1gid.cif.gz", "base_ops": [{"op": "copies", "n": 8}],
                    "twin": {"kind": "T1", "ops": [{"op": "rigid", "seed": f"{seed}:large:{t}", "trans": [37.0, -112.0, 255.0]}]}}
+    # format twins in which the last nucleotide (and two others) is a modified component whose name does not end in a base
+    # letter; the mmCIF member carries the canonical sequence, the PDB member only the atoms
+    for fn in [f for f in files if f.endswith(("1ATO.pdb", "1A1T_1_B.cif", "1E7K_1_C.cif", "1ehz-assembly-1.cif"))]:
+        if mine():
+            yield {"family": "T4-format-modified-last-residue", "file": fn, "base_ops": [], "twin": {"kind": "T4", "modified": f"{seed}:{fn}:mod"}}
     for m in (2, 5, 9):
         if mine():
             yield {"family": "T4-written-by-the-library-model-selection", "file": "tests/2HY9.cif", "base_ops": [], "twin": {"kind": "T4W", "model": m}}
@@ -418,7 +423,7 @@ def run_case(case, rec):
     else:
         from vmon import emit
 
-        res = emit.format_twins(base, altloc_seed=tw.get("altlocs"), edges_seed=tw.get("edges"))
+        res = emit.format_twins(base, altloc_seed=tw.get("altlocs"), edges_seed=tw.get("edges"), modified_seed=tw.get("modified"))
         if res is None:
             rec.skip("twin.interactions-equal", "outside-PDB-limits-or-multi-char-chain")
             return
